@@ -83,7 +83,13 @@ impl Prop for C16 {
             Tier::Quick => (2, &LINE_SHAPES[..3]),
             Tier::Thorough => (3, &LINE_SHAPES[..]),
         };
-        let ts = texts(ml, shapes);
+        let mut ts = texts(ml, shapes);
+        // three lines on one side (a word run of the inner diff can then cross two line ends)
+        for t in ["x\nx\nx\n", "x x\nx\nx\n", "x\nx\nx x\n", "x\nx\nx", "x\r\nx\r\nx\r\n"] {
+            if !ts.iter().any(|x| x == t) {
+                ts.push(t.to_string());
+            }
+        }
         let mut v = vec![];
         let words = |t: &str| t.chars().filter(|c| *c == 'x').count();
         let (max_words, max_words_clock) = match tier {
